@@ -426,6 +426,97 @@ theorem ainv_step (c : SCfg) (hff : c.failFast = true) (s : SState) (l : Label) 
       cases hh
       rw [hn, hb]; rfl
 
+/-- once tripped, always tripped: `AInv` with the first disjunct -/
+def Tripped (s : SState) : Prop := s.phase ≠ .init ∧ s.slots = .brk
+
+theorem tripped_step (c : SCfg) (s : SState) (l : Label) (h : Tripped s) (hc : Clean0 (stepL c s l) = true) :
+    Tripped (stepL c s l) := by
+  have hs0 : Clean0 s = true := clean0_step_mono c s l hc
+  have hs : s.dis = [] := by simpa [Clean0] using hs0
+  have hd : (stepL c s l).dis = [] := by simpa [Clean0] using hc
+  obtain ⟨hni, hb⟩ := h
+  have same : ∀ s' : SState, ww s' = ww s → Tripped s' := by
+    intro s' hv
+    have e1 : s'.phase = s.phase := congrArg W.phase hv
+    have e3 : s'.slots = s.slots := congrArg W.slots hv
+    exact ⟨by rw [e1]; exact hni, by rw [e3]; exact hb⟩
+  have moved : ∀ (s' : SState) (p : Phase), p ≠ .init → s'.phase = p → s'.slots = s.slots → Tripped s' :=
+    fun s' p hp e1 e3 => ⟨by rw [e1]; exact hp, by rw [e3]; exact hb⟩
+  cases l with
+  | tx e => exact same _ (ww_tx c s e)
+  | rx e => exact same _ (ww_rx c s e)
+  | other => exact same _ (ww_other c s)
+  | cbIn a b t => exact same _ (ww_cbIn c s a b t)
+  | cbOut a b t => exact same _ (ww_cbOut c s a b t)
+  | envMove => exact same _ (ww_env c s)
+  | pPend => exact same _ (ww_pPend c s)
+  | pWake => exact same _ (ww_pWake c s)
+  | pOk f => exact same _ (ww_pOk c s f)
+  | pErr => exact same _ (ww_pErr c s)
+  | pEnd => exact same _ (ww_pEnd c s)
+  | pFinish => exact same _ (ww_pFinish c s)
+  | ins t a b => exact same _ (ww_ins c s t a b)
+  | verdict b x y z => exact same _ (ww_verdict c s b x y z)
+  | poll => exact same _ (ww_poll c s)
+  | hookRestore => exact same _ (ww_hookRestore c s hs hd)
+  | hookTake => exact absurd (ww_hookTake c s hs hd) hni
+  | exit =>
+    have hv := ww_exit c s hs hd
+    exact moved _ .exited (by simp) (congrArg W.phase hv) (congrArg W.slots hv)
+  | get1 t ask ns nc =>
+    have hv := (ww_get1 c s t ask ns nc hs hd).2.2
+    exact moved _ .afterGet1 (by simp) (congrArg W.phase hv) (congrArg W.slots hv)
+  | get2 t2 slots got sleep running =>
+    obtain ⟨_, ready, hv⟩ := ww_get2 c s t2 slots got sleep running hs hd
+    exact moved _ .afterGet2 (by simp) (congrArg W.phase hv) (congrArg W.slots hv)
+  | idle fin sl =>
+    have hv := ww_idle c s fin sl hs hd
+    have e1 : (stepL c s (.idle fin sl)).phase = if fin then .exiting else .idle1 := congrArg W.phase hv
+    have e3 : (stepL c s (.idle fin sl)).slots = s.slots := congrArg W.slots hv
+    exact ⟨by rw [e1]; cases fin <;> simp, by rw [e3]; exact hb⟩
+  | idleYield =>
+    have hv := ww_idleYield c s hs hd
+    exact moved _ .idle2 (by simp) (congrArg W.phase hv) (congrArg W.slots hv)
+  | idleSlept =>
+    have hv := ww_idleSlept c s hs hd
+    exact moved _ .idle2 (by simp) (congrArg W.phase hv) (congrArg W.slots hv)
+  | idleContinue =>
+    have hv := ww_idleContinue c s hs hd
+    exact moved _ .loopTop (by simp) (congrArg W.phase hv) (congrArg W.slots hv)
+  | brk =>
+    obtain ⟨e3, e1, _⟩ := ww_brk c s
+    exact ⟨by rw [e1]; exact hni, e3⟩
+  | cons got =>
+    have hv := ww_cons c s got hs hd
+    have e3 : (stepL c s (.cons got)).slots = s.slots.onConsume := congrArg W.slots hv
+    have e1 : (stepL c s (.cons got)).phase = .draining := congrArg W.phase hv
+    exact ⟨by rw [e1]; simp, by rw [e3, hb]; rfl⟩
+  | endA id f r t =>
+    obtain ⟨k, hv⟩ := ww_endA c s id f r t hs hd
+    have e1 : (stepL c s (.endA id f r t)).phase = s.phase := congrArg W.phase hv
+    have e3 : (stepL c s (.endA id f r t)).slots = s.slots := congrArg W.slots hv
+    exact ⟨by rw [e1]; exact hni, by rw [e3]; exact hb⟩
+  | notif id f r =>
+    obtain ⟨k, rest, _, _, hv⟩ := ww_notif c s id f r hs hd
+    have e1 : (stepL c s (.notif id f r)).phase = s.phase := congrArg W.phase hv
+    have e3 : (stepL c s (.notif id f r)).slots = s.slots := congrArg W.slots hv
+    exact ⟨by rw [e1]; exact hni, by rw [e3]; exact hb⟩
+  | disp n sl =>
+    obtain ⟨_, hv⟩ := ww_disp c s n sl hs hd
+    have e3 : (stepL c s (.disp n sl)).slots = s.slots.onDispatch s.batch.length := congrArg W.slots hv
+    have e1 : (stepL c s (.disp n sl)).phase = .selecting := congrArg W.phase hv
+    exact ⟨by rw [e1]; simp, by rw [e3, hb]; rfl⟩
+
+theorem tripped_run (c : SCfg) : ∀ (ls : List Label) (s : SState), Tripped s →
+    Clean0 (ls.foldl (stepL c) s) = true → Tripped (ls.foldl (stepL c) s) := by
+  intro ls
+  induction ls with
+  | nil => intro s h _; exact h
+  | cons l rest ih =>
+    intro s h hc
+    simp only [foldl_cons] at hc ⊢
+    exact ih _ (tripped_step c s l h (clean0_foldl_mono c rest _ hc)) hc
+
 theorem ainv_run (c : SCfg) (hff : c.failFast = true) : ∀ (ls : List Label) (s : SState), AInv s →
     Clean0 (ls.foldl (stepL c) s) = true →
     AInv (ls.foldl (stepL c) s) ∧ ∀ n sl, Label.disp n sl ∈ ls → n = 0 := by
